@@ -105,7 +105,9 @@ class VSocket(object):
         self.net = net
         self.family, self.type, self.proto = family, type_, proto
         self.conn = None
-        self.closed = False
+        self.closed = False             # really closed (fd released)
+        self.close_requested = False    # close() called
+        self.io_refs = 0                # open makefile() objects
         self.fd = net.new_fd(self)
         self.files = 0
 
@@ -140,6 +142,7 @@ class VSocket(object):
         if mode != 'rb' or buffering != 0:
             raise ToolError('vnet models makefile("rb", 0) only')
         self.files += 1
+        self.io_refs += 1
         return VFile(self)
 
     def send(self, data):
@@ -184,6 +187,12 @@ class VSocket(object):
         if c is None:
             raise OSError(errno.ENOTCONN, 'Transport endpoint is not '
                           'connected')
+        if c.sent_after_end or (c.wr_shutdown and c.rd_shutdown
+                                and c.eof_pending):
+            # the connection is already fully closed or was reset by the
+            # peer (we wrote after it had closed): ENOTCONN, as on Linux
+            raise OSError(errno.ENOTCONN, 'Transport endpoint is not '
+                          'connected')
         if how in (SHUT_WR, SHUT_RDWR):
             c.wr_shutdown = True
         if how in (SHUT_RD, SHUT_RDWR):
@@ -195,28 +204,32 @@ class VSocket(object):
             self.net.feed(c)
 
     def close(self):
+        """socket.close(): while a makefile() object is still open the fd
+        stays open and the socket object remains fully usable (CPython's
+        _io_refs); the real close happens when the last file closes."""
         S = self._S()
         if S.aborting:
             return
         S.point('sock.close')
-        if self.closed:
+        if self.close_requested:
             return
-        self.closed = True
+        self.close_requested = True
         c = self.conn
         if c is not None:
             c.sock_closed = True
             c.close_order.append('sock.close')
             S.event('sock.close', c.id, S.me().id)
-            self._maybe_release()
+        self._maybe_release()
         S.effect()
 
     def _maybe_release(self):
-        c = self.conn
-        if c is not None and c.sock_closed and (c.file_closed
-                                                or not self.files):
-            c.wr_shutdown = True      # the fd is really gone: peer sees EOF
-            if self.net.eager and c.server is not None:
-                self.net.feed(c)
+        if self.close_requested and self.io_refs <= 0 and not self.closed:
+            self.closed = True
+            c = self.conn
+            if c is not None:
+                c.wr_shutdown = True   # the fd is really gone: peer sees EOF
+                if self.net.eager and c.server is not None:
+                    self.net.feed(c)
 
     def fileno(self):
         return -1 if self.closed else self.fd
@@ -255,8 +268,8 @@ def _read(sock, n, kind, fobj=None):
                       or (fobj is not None and fobj.closed), 'read')
         if fobj is not None and fobj.closed:
             raise ValueError('I/O operation on closed file.')
-    if c.rd_shutdown:
-        return b''
+    if c.rd_shutdown and not c.s2c:
+        return b''          # (data received before SHUT_RD stays readable)
     if not c.s2c:
         c.reads_after_eof += 1
         S.event('read-eof', c.id, S.me().id)
@@ -301,7 +314,8 @@ class VFile(object):
             c.file_closed = True
             c.close_order.append('file.close')
             S.event('file.close', c.id, S.me().id)
-            self.sock._maybe_release()
+        self.sock.io_refs -= 1
+        self.sock._maybe_release()
         S.effect()
 
     def readable(self):
